@@ -9,6 +9,18 @@ pub struct Counting;
 static LIVE: AtomicIsize = AtomicIsize::new(0);
 static PEAK: AtomicIsize = AtomicIsize::new(0);
 static ALLOCS: AtomicUsize = AtomicUsize::new(0);
+/// live allocations of at least BIG bytes (upload buffers / cached bodies in the C20 scenarios)
+pub const BIG: usize = 3500;
+static BIG_COUNT: AtomicIsize = AtomicIsize::new(0);
+static BIG_BYTES: AtomicIsize = AtomicIsize::new(0);
+
+#[inline]
+fn big(size: usize, sign: isize) {
+    if size >= BIG {
+        BIG_COUNT.fetch_add(sign, Relaxed);
+        BIG_BYTES.fetch_add(sign * size as isize, Relaxed);
+    }
+}
 
 unsafe impl GlobalAlloc for Counting {
     unsafe fn alloc(&self, l: Layout) -> *mut u8 {
@@ -17,12 +29,14 @@ unsafe impl GlobalAlloc for Counting {
             let v = LIVE.fetch_add(l.size() as isize, Relaxed) + l.size() as isize;
             PEAK.fetch_max(v, Relaxed);
             ALLOCS.fetch_add(1, Relaxed);
+            big(l.size(), 1);
         }
         p
     }
     unsafe fn dealloc(&self, p: *mut u8, l: Layout) {
         System.dealloc(p, l);
         LIVE.fetch_sub(l.size() as isize, Relaxed);
+        big(l.size(), -1);
     }
     unsafe fn realloc(&self, p: *mut u8, l: Layout, new: usize) -> *mut u8 {
         let q = System.realloc(p, l, new);
@@ -30,6 +44,8 @@ unsafe impl GlobalAlloc for Counting {
             let d = new as isize - l.size() as isize;
             let v = LIVE.fetch_add(d, Relaxed) + d;
             PEAK.fetch_max(v, Relaxed);
+            big(l.size(), -1);
+            big(new, 1);
         }
         q
     }
@@ -43,6 +59,9 @@ pub fn peak() -> isize {
 }
 pub fn reset_peak() {
     PEAK.store(LIVE.load(Relaxed), Relaxed);
+}
+pub fn big_live() -> (isize, isize) {
+    (BIG_COUNT.load(Relaxed), BIG_BYTES.load(Relaxed))
 }
 pub fn allocs() -> usize {
     ALLOCS.load(Relaxed)
